@@ -14,12 +14,15 @@ TOL_INEXACT = [1, 128]
 
 
 def tol_of(m):
+    if (m.get("meta") or {}).get("tol"):
+        return list(m["meta"]["tol"])
     return TOL_INEXACT if (m.get("meta") or {}).get("inexact") else TOL_EXACT
 
 
-def mk_spec(cid, m, groups, plan, *, reltol=None, label=""):
+def mk_spec(cid, m, groups, plan, *, reltol=None, label="", x64=False):
+    """x64: the case is run with jax_enable_x64 (what lcm's own test-suite does); default float32."""
     t = tol_of(m)
-    return {"cid": cid, "mdl": m, "groups": list(groups), "tol": t, "reltol": reltol if reltol is not None else t,
+    return {"x64": bool(x64 or (m.get("meta") or {}).get("x64")), "cid": cid, "mdl": m, "groups": list(groups), "tol": t, "reltol": reltol if reltol is not None else t,
             "plan": plan, "label": label, "diag_ccv": any(s.get("record_ccv") for s in plan),
             "diag_sim": any(s.get("record_steps") for s in plan)}
 
